@@ -135,11 +135,12 @@ Enq(s, a, cmd) == IF Alive(s, a) THEN [s EXCEPT !.cmdq[a] = Append(@, cmd)] ELSE
 
 \* answer to a command that came in through the handle
 \* (api: schedule; stray: recorded; party: RPC reply on its way back)
+StrayName(cmd) == IF cmd.t = "Run" /\ cmd.from = 1 THEN "RunEarly" ELSE cmd.t
 Answer(s, a, cmd, ok) ==
   IF cmd.src = "api" THEN
     (IF cmd.t = "Schedule" THEN [s EXCEPT !.sched[a] = IF ok THEN "ok" ELSE "err"]
      ELSE IF cmd.t = "Cancel" THEN [s EXCEPT !.cancl[a] = IF ok THEN "ok" ELSE "err"] ELSE s)
-  ELSE IF cmd.src = "stray" THEN [s EXCEPT !.strays[a] = Append(@, [cmd |-> cmd.t, res |-> IF ok THEN "ok" ELSE "err"])]
+  ELSE IF cmd.src = "stray" THEN [s EXCEPT !.strays[a] = Append(@, [cmd |-> StrayName(cmd), res |-> IF ok THEN "ok" ELSE "err"])]
   ELSE IF cmd.src = "self" THEN s
   ELSE LET k == CASE cmd.t = "Validate" -> "validate" [] cmd.t = "Run" -> "run" [] cmd.t = "Consts" -> "consts" IN
        [s EXCEPT !.replyq = @ \cup {Reply(k, a[1], cmd.from, a[2], ok)},
@@ -150,7 +151,7 @@ Dropped(s, a, cmd) ==
   IF cmd.src = "api" THEN
     (IF cmd.t = "Schedule" THEN [s EXCEPT !.sched[a] = "stopped"]
      ELSE IF cmd.t = "Cancel" THEN [s EXCEPT !.cancl[a] = "stopped"] ELSE s)
-  ELSE IF cmd.src = "stray" THEN [s EXCEPT !.strays[a] = Append(@, [cmd |-> cmd.t, res |-> "stopped"])]
+  ELSE IF cmd.src = "stray" THEN [s EXCEPT !.strays[a] = Append(@, [cmd |-> StrayName(cmd), res |-> "stopped"])]
   ELSE IF cmd.src = "self" THEN s
   ELSE Answer(s, a, cmd, FALSE)
 
@@ -198,7 +199,7 @@ CallCancel(a) ==
 \* stray commands through the public handle: duplicate schedule, run / consts /
 \* validate that the protocol does not expect now, an MPC message with a
 \* sender index out of range ("MsgBad")
-StrayKinds == {"Schedule", "Run", "Consts", "Validate", "MsgBad", "MsgEarly"}
+StrayKinds == {"Schedule", "Run", "Consts", "Validate", "MsgBad", "MsgEarly", "RunEarly"}
 NotYetValidated(a) == kind[a] \in {"Init", "AwaitingValidation", "ValidateRequested"}
 ActorQuiet(a) == hpc[a].pc = "idle" /\ cmdq[a] = << >>
 StrayAllowed(a, t) ==
@@ -210,12 +211,17 @@ StrayAllowed(a, t) ==
     [] t = "Validate" -> (~NotYetValidated(a) \/ kind[a] = "ValidateRequested") /\ kind[a] # "Stopped" /\ ActorQuiet(a)
     [] t = "MsgBad" -> TRUE                                  \* sender index >= number of participants
     [] t = "MsgEarly" -> sched[a] = "none"                   \* in-range sender, before scheduling
+    \* a run request that reaches the leader while it is still inside its schedule step (a retried or misrouted
+    \* request): it waits in the queue and is handled once the policy is validated -- as a valid run; the run
+    \* command the leader then sends to itself arrives in a state it is invalid for and must change nothing
+    [] t = "RunEarly" -> IsLeader(a) /\ NotYetValidated(a) /\ sched[a] = "called" /\ hpc[a].pc # "idle"
 Inject(a, t) ==
   /\ budget.stray > 0
   /\ t \in StrayKinds
   /\ StrayAllowed(a, t)   \* (the driver applies the same rule to its random strays)
   /\ LET s == [St EXCEPT !.budget.stray = @ - 1] IN
      Commit(IF Alive(s, a) THEN Enq(s, a, IF t = "Validate" THEN ValCmd("stray", 0, PolOf(a).leader, PolOf(a).prog)
+                                          ELSE IF t = "RunEarly" THEN [Cmd("Run", "stray") EXCEPT !.from = 1]
                                           ELSE Cmd(t, "stray"))
             ELSE [s EXCEPT !.strays[a] = Append(@, [cmd |-> t, res |-> "stopped"])])
 
@@ -614,7 +620,9 @@ C13Liveness == <>[]HappyEnd
 
 \* C14: no actor panics; strays are answered with an error
 NoPanic == \A a \in A : \A k \in 1..Len(strays[a]) : strays[a][k].res # "panic"
-StraysRejected == \A a \in A : \A k \in 1..Len(strays[a]) : strays[a][k].res # "ok"
+\* (a premature run request at the leader is no invalid command by the time it is handled: it may be accepted;
+\* C14Undisturbed demands that the run ends as if it had not been sent)
+StraysRejected == \A a \in A : \A k \in 1..Len(strays[a]) : strays[a][k].res = "ok" => strays[a][k].cmd = "RunEarly"
 
 \* C15: after cancel() returned Ok: stopped, exactly one notification for a
 \* party with a destination, nothing afterwards, permit back
